@@ -280,7 +280,7 @@ impl Engine {
             .build();
         let cache = Arc::new(CacheD::new(config));
         for role in ["worker", "sweeper", "consumer"] {
-            if verif::wait_settled(role, 0, TIMEOUT).is_none() {
+            if crate::wait_settled_ticks(role, 0).is_none() {
                 return Err(format!("background thread {} did not reach its first schedule point", role));
             }
         }
@@ -305,7 +305,7 @@ impl Engine {
                     }
                 }
             }).unwrap());
-            if verif::wait_settled(&role, 0, TIMEOUT).is_none() {
+            if crate::wait_settled_ticks(&role, 0).is_none() {
                 return Err(format!("client thread {} did not park", role));
             }
             slots.push(slot);
@@ -350,7 +350,7 @@ impl Engine {
                 return Progress::Parked;
             }
             let seq = match verif::grant(&role) { Some(seq) => seq, None => return Progress::Hang("grant failed".to_string()) };
-            if verif::wait_settled(&role, seq, TIMEOUT).is_none() {
+            if crate::wait_settled_ticks(&role, seq).is_none() {
                 self.hung = true;
                 return Progress::Hang(format!("client {} did not reach a schedule point within {:?} (last point {})", client, TIMEOUT, at));
             }
@@ -364,7 +364,7 @@ impl Engine {
 
     fn step_background(&mut self, role: &str) -> Result<(), String> {
         let seq = verif::grant(role).ok_or_else(|| format!("{} is not parked", role))?;
-        match verif::wait_settled(role, seq, TIMEOUT) {
+        match crate::wait_settled_ticks(role, seq) {
             Some(_) => Ok(()),
             None => { self.hung = true; Err(format!("{} did not reach its next schedule point within {:?}", role, TIMEOUT)) }
         }
@@ -672,8 +672,7 @@ impl Engine {
         {
             let (cache, hung_flag) = (cache.clone(), hung.clone());
             let shutdown_thread = std::thread::spawn(move || { cache.shutdown(); hung_flag.store(false, Ordering::SeqCst); });
-            let deadline = std::time::Instant::now() + TIMEOUT;
-            while hung.load(Ordering::SeqCst) && std::time::Instant::now() < deadline { std::thread::sleep(Duration::from_micros(200)); }
+            crate::wait_until_ticks(|| !hung.load(Ordering::SeqCst));
             if hung.load(Ordering::SeqCst) { return Err("shutdown() at the end of the case did not return".to_string()); }
             let _ = shutdown_thread.join();
         }
@@ -681,10 +680,8 @@ impl Engine {
         drop(acks);
         drop(cache);
         for role in ["worker", "sweeper", "consumer"] {
-            let deadline = std::time::Instant::now() + TIMEOUT;
-            while verif::view(role).map(|view| !view.finished).unwrap_or(false) {
-                if std::time::Instant::now() > deadline { return Err(format!("background thread {} did not exit after the cache was dropped", role)); }
-                std::thread::sleep(Duration::from_micros(200));
+            if !crate::wait_until_ticks(|| !verif::view(role).map(|view| !view.finished).unwrap_or(false)) {
+                return Err(format!("background thread {} did not exit after the cache was dropped", role));
             }
         }
         Ok(())
